@@ -200,7 +200,8 @@ class ObjMixin:
                 assigns = _self_assignments(c, name)
         if assigns:
             init_val = self.summary_attr(o, name, assigns)
-            if volatile:
+            if volatile or (not o.concrete and isinstance(init_val, (PList, PSet, PDict))):
+                # containers of summary objects are filled by code we did not run
                 return self.volatile_view(o, name, init_val)
             o.attrs[name] = init_val
             o.attr_phase[name] = -1
